@@ -52,8 +52,6 @@ def pointee_const(ct):
 def run(prop="C05", tier="quick"):
     res = dict(findings=[], stats=collections.Counter(), samples=[], notes=[])
     F = res["findings"]
-    import compdb
-    fx_unit = None
     facts = ir_facts()
     fns = {f["name"]: f for f in facts["functions"]}
     if not any("param_edges" in f for f in facts["functions"]):
